@@ -2,7 +2,6 @@
      lex <src-hex>     -> ok <n> <type>:<line>:<col>:<value-hex|-|=> ...  |  lexnull      (same format as probes/front_probe.c `lex`)
      front <src-hex>   -> model of tokenize + parse_expression on the tokens after the first '=' (used for text-level replays):
                           lexnull | ok|hang|unsupported|generic|fuel *)
-let hexv' s = if s = "" then "=" else hex_of_bytes s
 let show_tok (t : ltoken) =
   Printf.sprintf "%d:%d:%d:%s" (int_of_n (kind_code t.lk)) (int_of_n t.lline) (int_of_n t.lcol)
     (match t.lv with None -> "-" | Some v -> if v = [] then "=" else hex_of_bytes v)
